@@ -4725,7 +4725,7 @@ def _tensordot_transpose_axes(a, b, axes):
     if not optimize(OptimizationFlag.skip_arg_checks):
         for lega, legb in zip(a.legs[-axes:], b.legs[:axes]):
             lega.test_contractible(legb)
-    elif a.shape[-axes:] != b.shape[:axes]:  # check at least the shape
+    elif axes > 0 and a.shape[-axes:] != b.shape[:axes]:  # check at least the shape
         raise ValueError('Shape mismatch for tensordot')
     return a, b, axes
 
